@@ -197,6 +197,10 @@ func (cs *Contracts) LoadContractFile(path, pkgPath string, external bool) {
 			continue
 		}
 		if curInv != nil {
+			if strings.HasPrefix(word, "inv[") && strings.HasSuffix(word, "]") {
+				curInv.Tag = word[4 : len(word)-1]
+				word = "inv"
+			}
 			if word == "inv" {
 				e, err := ParseExpr(rest)
 				if err != nil {
